@@ -30,7 +30,8 @@ def listing(ctx, case):
             w.ctl.connection_command(w.conns[rec_sel].name())
         for k, ci in enumerate(assign):
             # every other message of longer histories is on an object the connection could not resolve
-            ctl.add_message(w, ci, target_id=99 if (len(assign) >= 3 and k % 2 == 1) else 1)
+            # odd-length histories share one time stamp (a burst): `oldest first` is the recording order, not the clock
+            ctl.add_message(w, ci, t=(7.5 if len(assign) % 2 == 1 else None), target_id=99 if (len(assign) >= 3 and k % 2 == 1) else 1)
         if rec_sel is not None and sel is None:
             w.ctl.connection_command('all')
         F = ctl.SymLeaf(ctx, 'filter')
@@ -61,7 +62,7 @@ def listing(ctx, case):
                 cap = None
             if form.split('~')[0].strip() == '':
                 used = F
-            call = lambda: w.ctl.list_command(form)
+            call = lambda: w.ctl.process_command(ctx.choose(['list ', 'l ', 'wllist '], 'spelling') + form)
         before = (w.ctl.display_matcher, w.ctl.stop_matcher, w.ctl.current_connection, list(w.ctl.all_messages),
                   [c.messages() for c in w.conns], w.ctl.last_shown_timestamp)
         n0 = len(w.out.items)
